@@ -749,10 +749,13 @@ fn ext_key(d: &Definition) -> Option<(String, bool)> {
     }
 }
 
-fn compare_moved(orig_text: &str, moved_text: &str, ctx: &mut Ctx) -> Outcome {
-    let (sa, a) = build_schema(&[orig_text.to_string()], false);
-    let (sb, b) = build_schema(&[moved_text.to_string()], false);
+fn compare_moved(orig_text: &str, moved_text: &str, adopt: bool, ctx: &mut Ctx) -> Outcome {
+    let (sa, a) = build_schema(&[orig_text.to_string()], adopt);
+    let (sb, b) = build_schema(&[moved_text.to_string()], adopt);
     ctx.class(if a.msgs.is_empty() { "builds-cleanly" } else { "build-errors" });
+    if adopt {
+        ctx.class("moved:adopt-orphan-extensions");
+    }
     let fails = compare("C13|moved-ext", ("extensions after the definition", "extensions moved before the definition"), &a, &b, sa == sb, true);
     ctx.pick_failure(fails)
 }
@@ -830,7 +833,29 @@ pub fn check_moved(bytes: &[u8], ctx: &mut Ctx) -> Outcome {
         Some(i) if pc.bool(100) => i,
         _ => pc.choose(cands.len()),
     };
-    let (key, d, after) = cands[pick].clone();
+    let (key, mut d, mut after) = cands[pick].clone();
+    // builder mode: in adopt_orphan_extensions mode extensions of types that are never defined become
+    // types at build(); their order must not depend on where another type's extension stands. Add a few
+    // such orphans (before and after the target definition) in that mode.
+    let adopt = pc.bool(80);
+    if adopt {
+        let k = pc.choose(4);
+        for n in 0..k {
+            let kind = pc.pick(&TypeKind::ALL);
+            let e = synth_ext(&mut pc, kind, ["Orph0", "Orph1", "Orph2"][n % 3]);
+            let at = pc.choose(defs.len() + 1);
+            defs.insert(at, Definition::Type(e));
+            if at <= d {
+                d += 1;
+            }
+            for j in after.iter_mut() {
+                if at <= *j {
+                    *j += 1;
+                }
+            }
+        }
+        ctx.class(format!("moved:orphans-of-undefined-types:{}", k));
+    }
     let p = 1 + pc.choose(after.len());
     let orig = defs.clone();
     // lower bound: just after the last sibling extension that already precedes the definition
@@ -857,7 +882,7 @@ pub fn check_moved(bytes: &[u8], ctx: &mut Ctx) -> Outcome {
     }
     let orig_text = printer::print_document(&Document { defs: orig.clone() });
     let moved_text = printer::print_document(&Document { defs: defs.clone() });
-    ctx.set_sample(format!("{orig_text}{MOVED_MARK}\n{moved_text}"));
+    ctx.set_sample(format!("{}{orig_text}{MOVED_MARK}\n{moved_text}", if adopt { format!("{ADOPT_MARK}\n") } else { String::new() }));
     ctx.class(if key == "schema" { "moved:schema-extension" } else if kinds_mismatch { "moved:type-extension-kind-mismatch" } else { "moved:type-extension-same-kind" });
     ctx.class(format!("moved-count:{}", p.min(3)));
     // harness self-checks: both texts denote the intended lists and the move is legitimate
@@ -870,7 +895,7 @@ pub fn check_moved(bytes: &[u8], ctx: &mut Ctx) -> Outcome {
         _ => return ctx.skip("generator: text does not re-parse to the same definition list"),
     }
     ctx.nontrivial = true;
-    compare_moved(&orig_text, &moved_text, ctx)
+    compare_moved(&orig_text, &moved_text, adopt, ctx)
 }
 
 /// `moved` must be `orig` with some extensions moved from after to before their definition:
@@ -940,7 +965,7 @@ pub fn check_text(text: &str, ctx: &mut Ctx) -> Outcome {
             _ => return Outcome::fail("C13|bad-repro", "the reference parser rejects the original or the moved document"),
         }
         ctx.nontrivial = true;
-        return compare_moved(&orig, &moved, ctx);
+        return compare_moved(&orig, &moved, adopt, ctx);
     }
     let mut chunks: Vec<String> = vec![String::new()];
     for l in lines {
